@@ -12,7 +12,8 @@ cd /verif/h
 PKGS=github.com/amzn/ion-go/ion,github.com/amzn/ion-go/cmd/ion-go,github.com/amzn/ion-go/internal
 go test -c -tags verif -cover -covermode=atomic -coverpkg=$PKGS -o $OUT/checks.test ./checks || exit 2
 go build -cover -covermode=atomic -coverpkg=$PKGS -o $OUT/ion-go github.com/amzn/ion-go/cmd/ion-go || exit 2
-go build -cover -covermode=atomic -coverpkg=$PKGS -o $OUT/c06worker ./cmd/c06worker || exit 2
+# the main package must be among the covered ones, or the binary writes no counters at all
+go build -cover -covermode=atomic -coverpkg=github.com/amzn/ion-go/ion,verif/h/cmd/c06worker -o $OUT/c06worker ./cmd/c06worker || exit 2
 cd checks
 for i in $(seq -w 1 20); do
   p=C$i
@@ -38,6 +39,7 @@ files = collections.defaultdict(list)
 tot = hit = 0
 for loc, c in cov.items():
     fn, rng = loc.split(":")
+    if fn.startswith("verif/"): continue
     tot += stm[loc]; hit += stm[loc] if c else 0
     if not c:
         a, b = rng.split(",")
